@@ -127,7 +127,9 @@ def lowOfRules (rules : List (Nat × Pat)) (t : T) : Option T :=
 
 /-! ### the generated "may construct" table and its rank check -/
 
-def rankOf (ranks : List Nat) (c : Nat) : Nat := ranks.getD c 0
+/-- classes are numbered by increasing rank; `ranks` lists, for r = 1, 2, …, the first class id of
+    rank ≥ r: the rank of class `c` is the number of thresholds `≤ c` -/
+def rankOf (ranks : List Nat) (c : Nat) : Nat := (ranks.filter (fun t => decide (t ≤ c))).length
 
 /-- every class listed with a non-trivial `_lower` only constructs classes of strictly smaller rank -/
 def rankOK (table : List (Nat × List Nat)) (ranks : List Nat) : Bool :=
